@@ -298,6 +298,7 @@ package database
 //@   modifies results[*]
 //@   ensures[C01.rerank-ok] resultsOK(db, result) && sortedDesc(result) && elig(result)
 //@   ensures[C07.rerank-nonempty] len(result) <= len(results) && (len(results) > 0 ==> len(result) > 0)
+//@   ensures[C06.rerank-window+C01.rerank-window] len(result) == len(results) || (len(result) >= options.Limit && len(result) >= 10)
 //@   ensures[C01.rerank-prefix-view] base(result) == base(results) && offset(result) == offset(results) && cap(result) <= cap(results)
 //@ loop 1
 //@   invariant simByIdx != nil && fresh(simByIdx) && (forall i int :: (i in simByIdx) ==> simByIdx[i] > 0.0)
@@ -582,10 +583,14 @@ package database
 
 // fuzzyFind: the matcher's (assumed) contract carried through the NUL sanitisation; that the
 // sanitised targets are NUL-free, and the matcher safe on them, is validated bounded (axcheck).
+//@ axiom nul-index forall s string :: strings.IndexByte(s, 0) < 0 ==> nulFree(s)
+//@ axiom nul-replaced forall s string :: nulFree(strings.ReplaceAll(s, "\x00", " "))
 //@ func fuzzyFind
 //@   modifies targets[*]
 //@   ensures[C07.fuzzy-find] fresh(result) && (forall k int :: 0 <= k && k < len(result) ==> 0 <= result[k].Index && result[k].Index < len(targets))
 //@   ensures[C07.fuzzy-find-order] forall a, b int :: 0 <= a && a < b && b < len(result) ==> result[a].Score >= result[b].Score && result[a].Index != result[b].Index
+//@ loop 1
+//@   invariant forall k int :: 0 <= k && k < $i ==> nulFree(targets[k])
 
 // ---------------------------------------------------------------------------
 // Caching layer (C05)
